@@ -32,7 +32,7 @@ SLOTS = [
 
 HEADER = '''from collections import defaultdict
 from typing import Any, Callable, DefaultDict, Dict, Iterator, Generator, List, NewType, Optional, Set, Tuple, Type, Union
-from vf.fixtures.hier import A, B, C, D, M, Outer, MyList, MyDict, NT, func, lam, make_gen, MySet, MyTuple
+from vf.fixtures.hier import A, B, C, D, M, Outer, MyList, MyDict, NT, func, lam, make_gen, MySet, MyTuple, Handler, partial
 from vf.fixtures.hier import X1, X2, X3, X4, X5, X6, R1, R2, E1, E2, E3, E4, E5, E6, AH1, AH2, AH3, AH4, AH5, AH6
 from vf.fixtures.hier import TimeoutError, Warning, KeyError_, SKey, Registry  # noqa: A004 - user classes named like builtins
 from vf.fixtures.helpers import pick
